@@ -167,4 +167,123 @@ Proof.
       * rewrite (Hin i ltac:(lia) Hi2). unfold dr_Vf, upd1. destruct (Nat.eqb_spec i j0); [lia | reflexivity].
     + intros i Hi. rewrite (Hout i ltac:(lia)). unfold upd1. destruct (Nat.eqb_spec i j0); [lia | reflexivity].
 Qed.
+
+(* ---- straight-line statements: one statement writing a plain cell keeps the shape of the store ---- *)
+Ltac dr_plain :=
+  unfold dr_st; cbn [l_venv l_lenv l_heap]; repeat split; auto; try (lsym; reflexivity);
+  try (intros i Hi; rewrite !hget_hset_other by oid_neq; auto).
+Ltac dr_stmt Hs c :=
+  match goal with
+  | |- context [lexec1 ?I ?rk ?j ?s0 (dr_s c)] =>
+      let E := fresh "E" in let s1 := fresh "s" in
+      destruct s0 as [? ? ? ? ?]; dr_open Hs;
+      cbv [dr_s]; lsym
+  end.
+
+(* what one iteration computes, in terms of the index functions *)
+Definition dr_adj0 (f : nat -> Rvec) : Rvec :=
+  acc_adj (fun i => dr_Ladj (dro i) (f i)) 1%nat (dr_n - 1)%nat (dr_Ladj (dro 0%nat) (f 0%nat)).
+Definition dr_p1a (x : Rvec) (vs : nat -> Rvec) : Rvec := proxf (vlin 1 x (- tau / 2) (dr_adj0 vs)).
+Definition dr_w1a (x : Rvec) (vs : nat -> Rvec) : Rvec := vlin 2 (dr_p1a x vs) (- (1)) x.
+Definition dr_x1 (k : nat) (x : Rvec) (vs : nat -> Rvec) : Rvec := vlin 1 x (- lam k) (dr_p1a x vs).
+Definition dr_z1b (x : Rvec) (vs : nat -> Rvec) : Rvec :=
+  vlin 1 (dr_w1a x vs) (- tau / 2) (dr_adj0 (dr_Wf vs (dr_w1a x vs))).
+Definition dr_x2 (k : nat) (x : Rvec) (vs : nat -> Rvec) : Rvec := vlin 1 (dr_x1 k x vs) (lam k) (dr_z1b x vs).
+Definition dr_p1b (x : Rvec) (vs : nat -> Rvec) : Rvec := vlin 2 (dr_z1b x vs) (- (1)) (dr_w1a x vs).
+Definition dr_vs' (k : nat) (x : Rvec) (vs : nat -> Rvec) (i : nat) : Rvec :=
+  dr_Vf k vs (dr_Pf vs (dr_w1a x vs)) (dr_Wf vs (dr_w1a x vs)) (dr_p1b x vs) i.
+
+Lemma acc_adj_ext (f g : nat -> Rvec) : forall rem j0 a,
+  (forall i, (j0 <= i)%nat -> (i < j0 + rem)%nat -> f i = g i) -> acc_adj f j0 rem a = acc_adj g j0 rem a.
+Proof.
+  induction rem as [|rem IH]; intros j0 a H; cbn [acc_adj]; [reflexivity|].
+  rewrite (H j0) by lia. apply IH. intros i H1 H2. apply H; lia.
+Qed.
+
+Hypothesis nonempty : (1 <= dr_n)%nat.
+
+(* first half of an iteration: up to and including the callback *)
+Lemma dr_half1_heap k s x vs P2 W2 p1 z1 w1 :
+  dr_st s x vs P2 W2 p1 z1 w1 ->
+  exists s' z1',
+    litems_last (drI k) rkey dr_n false
+      [IStmt (dr_s 0); IForFrom 1 dr_bA; IStmt (dr_s 2); IStmt (dr_s 3); IStmt (dr_s 4); IStmt (dr_s 5); IStmt (dr_s 6)] s
+    = Some s'
+    /\ dr_st s' (dr_x1 k x vs) vs P2 W2 (dr_p1a x vs) z1' (dr_w1a x vs)
+    /\ l_log s' = (l_log s ++ [dr_p1a x vs])%list.
+Proof.
+  intros Hs. cbn [litems_last].
+  (* z1 = L[0].adjoint(v[0]) *)
+  destruct s as [ve le h nx log]. pose proof Hs as Hs0. dr_open Hs.
+  pose proof (Hvs 0%nat ltac:(lia)) as Hv0.
+  assert (E0 : exists s1, lexec1 (drI k 0) rkey 0 (mk_lst ve le h nx log) (dr_s 0) = Some s1
+                /\ dr_st s1 x vs P2 W2 p1 (dr_Ladj (dro 0%nat) (vs 0%nat)) w1 /\ l_log s1 = log).
+  { eexists. split; [cbv [dr_s]; lsym; reflexivity|]. split; [dr_plain | reflexivity]. }
+  destruct E0 as (s1 & E0 & Hs1 & Hlog1). rewrite E0. cbn [obind]. clear E0.
+  destruct (dr_loopA k (dr_n - 1)%nat 1%nat s1 x vs P2 W2 p1 _ w1 ltac:(lia) Hs1) as (s2 & p1' & E2 & Hs2 & Hlog2).
+  rewrite E2. cbn [obind]. clear E2.
+  fold (dr_adj0 vs) in Hs2.
+  (* z1.lincomb(1, x, -tau / 2, z1); prox; w1; x; callback *)
+  clear Hs0 Hv Hvp Hvz Hvw Hl1 Hl2 Hl3 Hl4 Hx Hp1 Hz1 Hw1 Hvs HP2 HW2 HZ2 Hv0 Hs1.
+  destruct s2 as [ve2 le2 h2 nx2 log2]. pose proof Hs2 as Hs2'. dr_open Hs2.
+  eexists. eexists. split; [cbv [dr_s]; lsym; reflexivity|]. split.
+  - unfold dr_x1, dr_p1a, dr_w1a. dr_plain.
+  - cbn [l_log] in *. unfold dr_p1a. congruence.
+Qed.
+
+(* second half of a non-final iteration *)
+Definition dr_z1b' (vs : nat -> Rvec) (w1 : Rvec) : Rvec := vlin 1 w1 (- tau / 2) (dr_adj0 (dr_Wf vs w1)).
+Definition dr_p1b' (vs : nat -> Rvec) (w1 : Rvec) : Rvec := vlin 2 (dr_z1b' vs w1) (- (1)) w1.
+Lemma dr_half2_heap k s x1 vs P2 W2 p1 z1 w1 :
+  dr_st s x1 vs P2 W2 p1 z1 w1 ->
+  exists s' vs' P2' W2',
+    litems_last (drI k) rkey dr_n false
+      [IFor dr_bP; IStmt (dr_s 9); IForFrom 1 dr_bB; IStmt (dr_s 11); IStmt (dr_s 12); IStmt (dr_s 13); IFor dr_bV] s
+    = Some s'
+    /\ dr_st s' (vlin 1 x1 (lam k) (dr_z1b' vs w1)) vs' P2' W2' (dr_p1b' vs w1) (dr_z1b' vs w1) w1
+    /\ l_log s' = l_log s
+    /\ (forall i, (i < dr_n)%nat -> vs' i = dr_Vf k vs (dr_Pf vs w1) (dr_Wf vs w1) (dr_p1b' vs w1) i).
+Proof.
+  intros Hs. cbn [litems_last].
+  destruct (dr_loopP k dr_n 0 s x1 vs P2 W2 p1 z1 w1 eq_refl Hs) as (s1 & P2' & W2' & E1 & Hs1 & Hlog1 & Hin & _).
+  rewrite E1. cbn [obind]. clear E1.
+  (* p1 = L[0].adjoint(w2[0]) *)
+  destruct s1 as [ve le h nx log]. pose proof Hs1 as Hs1'. dr_open Hs1.
+  pose proof (HW2 0%nat ltac:(lia)) as Hw0.
+  assert (E2 : exists s2, lexec1 (drI k 0) rkey 0 (mk_lst ve le h nx log) (dr_s 9) = Some s2
+                /\ dr_st s2 x1 vs P2' W2' (dr_Ladj (dro 0%nat) (W2' 0%nat)) z1 w1 /\ l_log s2 = log).
+  { eexists. split; [cbv [dr_s]; lsym; reflexivity|]. split; [dr_plain | reflexivity]. }
+  destruct E2 as (s2 & E2 & Hs2 & Hlog2). rewrite E2. cbn [obind]. clear E2.
+  destruct (dr_loopB k (dr_n - 1)%nat 1%nat s2 x1 vs P2' W2' _ z1 w1 ltac:(lia) Hs2) as (s3 & z1' & E3 & Hs3 & Hlog3).
+  rewrite E3. cbn [obind]. clear E3.
+  assert (Eadj : acc_adj (fun i => dr_Ladj (dro i) (W2' i)) 1 (dr_n - 1) (dr_Ladj (dro 0%nat) (W2' 0%nat)) = dr_adj0 (dr_Wf vs w1)).
+  { unfold dr_adj0. rewrite (proj2 (Hin 0%nat ltac:(lia) ltac:(lia))).
+    apply acc_adj_ext. intros i H1 H2. rewrite (proj2 (Hin i ltac:(lia) ltac:(lia))). reflexivity. }
+  rewrite Eadj in Hs3.
+  clear Hs1' Hv Hvp Hvz Hvw Hl1 Hl2 Hl3 Hl4 Hx Hp1 Hz1 Hw1 Hvs HP2 HW2 HZ2 Hw0 Hs2.
+  destruct s3 as [ve3 le3 h3 nx3 log3]. pose proof Hs3 as Hs3'. dr_open Hs3.
+  assert (E4 : exists s4, lexec1 (drI k 0) rkey 0 (mk_lst ve3 le3 h3 nx3 log3) (dr_s 11) = Some s4
+             /\ dr_st s4 x1 vs P2' W2' (dr_adj0 (dr_Wf vs w1)) (dr_z1b' vs w1) w1 /\ l_log s4 = log3).
+  { eexists. split; [cbv [dr_s]; lsym; reflexivity|]. split; [unfold dr_z1b'; dr_plain | reflexivity]. }
+  destruct E4 as (s4a & E4 & Hs4a & Hlog4a). rewrite E4. cbn [obind]. clear E4.
+  clear Hs3' Hv Hvp Hvz Hvw Hl1 Hl2 Hl3 Hl4 Hx Hp1 Hz1 Hw1 Hvs HP2 HW2 HZ2.
+  destruct s4a as [ve4 le4 h4 nx4 log4]. pose proof Hs4a as Hs4a'. dr_open Hs4a.
+  assert (E5 : exists s4, lexec1 (drI k 0) rkey 0 (mk_lst ve4 le4 h4 nx4 log4) (dr_s 12) = Some s4
+             /\ dr_st s4 (vlin 1 x1 (lam k) (dr_z1b' vs w1)) vs P2' W2' (dr_adj0 (dr_Wf vs w1)) (dr_z1b' vs w1) w1
+             /\ l_log s4 = log4).
+  { eexists. split; [cbv [dr_s]; lsym; reflexivity|]. split; [dr_plain | reflexivity]. }
+  destruct E5 as (s4b & E5 & Hs4b & Hlog4b). rewrite E5. cbn [obind]. clear E5.
+  clear Hs4a' Hv Hvp Hvz Hvw Hl1 Hl2 Hl3 Hl4 Hx Hp1 Hz1 Hw1 Hvs HP2 HW2 HZ2.
+  destruct s4b as [ve5 le5 h5 nx5 log5]. pose proof Hs4b as Hs4b'. dr_open Hs4b.
+  assert (E6 : exists s4, lexec1 (drI k 0) rkey 0 (mk_lst ve5 le5 h5 nx5 log5) (dr_s 13) = Some s4
+             /\ dr_st s4 (vlin 1 x1 (lam k) (dr_z1b' vs w1)) vs P2' W2' (dr_p1b' vs w1) (dr_z1b' vs w1) w1
+             /\ l_log s4 = log5).
+  { eexists. split; [cbv [dr_s]; lsym; reflexivity|]. split; [unfold dr_p1b'; dr_plain | reflexivity]. }
+  destruct E6 as (s4 & E6 & Hs4 & Hlog4). rewrite E6. cbn [obind]. clear E6.
+  destruct (dr_loopV k dr_n 0 s4 _ vs P2' W2' _ _ w1 eq_refl Hs4) as (s5 & vs' & E5 & Hs5 & Hlog5 & Hvin & _).
+  rewrite E5. cbn [obind].
+  exists s5, vs', P2', W2'. split; [reflexivity|]. split; [exact Hs5|]. split; [cbn [l_log] in *; congruence|].
+  intros i Hi. rewrite (Hvin i ltac:(lia) Hi). unfold dr_Vf.
+  destruct (Hin i ltac:(lia) Hi) as [-> ->]. reflexivity.
+Qed.
 End DRsweep.
